@@ -93,25 +93,31 @@ func addSyncIntrinsics() {
 	}
 	// sync/atomic primitives on plain words
 	for _, w := range []string{"Int32", "Int64", "Uint32", "Uint64", "Uintptr", "Pointer"} {
+		// (every atomic operation is a synchronisation point: under PreemptSync another goroutine may run before it)
 		intrinsics["sync/atomic.Load"+w] = func(e *Engine, s *State, f *Frame, fn *ssa.Function, args []Value, retIdx int, advance bool) (Value, bool) {
+			e.preemptPoint(s)
 			return e.load(s, args[0].(*Pointer)), true
 		}
 		intrinsics["sync/atomic.Store"+w] = func(e *Engine, s *State, f *Frame, fn *ssa.Function, args []Value, retIdx int, advance bool) (Value, bool) {
+			e.preemptPoint(s)
 			e.store(s, args[0].(*Pointer), args[1])
 			return nil, true
 		}
 		intrinsics["sync/atomic.Swap"+w] = func(e *Engine, s *State, f *Frame, fn *ssa.Function, args []Value, retIdx int, advance bool) (Value, bool) {
+			e.preemptPoint(s)
 			old := e.load(s, args[0].(*Pointer))
 			e.store(s, args[0].(*Pointer), args[1])
 			return old, true
 		}
 		intrinsics["sync/atomic.Add"+w] = func(e *Engine, s *State, f *Frame, fn *ssa.Function, args []Value, retIdx int, advance bool) (Value, bool) {
+			e.preemptPoint(s)
 			old := e.load(s, args[0].(*Pointer)).(*Term)
 			nv := e.c.Add(old, args[1].(*Term))
 			e.store(s, args[0].(*Pointer), nv)
 			return nv, true
 		}
 		intrinsics["sync/atomic.CompareAndSwap"+w] = func(e *Engine, s *State, f *Frame, fn *ssa.Function, args []Value, retIdx int, advance bool) (Value, bool) {
+			e.preemptPoint(s)
 			old := e.load(s, args[0].(*Pointer))
 			if e.cond(s, e.valueEq(s, old, args[1])) {
 				e.store(s, args[0].(*Pointer), args[2])
